@@ -12,6 +12,9 @@ def sh(cmd, cwd=None, timeout=1800):
 def main():
     src = sys.argv[1].rstrip("/")
     name = os.path.basename(src)
+    for a in sys.argv[2:]:
+        if a.startswith("--name="):
+            name = a[7:]
     meta = json.load(open(os.path.join(src, "meta.json")))
     prop = meta["property"]
     patch = os.path.join(src, "patch.diff")
@@ -30,7 +33,7 @@ def main():
             res["suite_passes_with_patch"] = rc == 0
             shutil.copy(os.path.join(src, "demo_test.go"), os.path.join(wt, pkgdir, "zz_seed_demo_test.go"))
             rc, out = sh(f"go test -vet=off -count=1 -run 'TestSeed' ./{pkgdir}/", cwd=wt)
-            res["demo_fails_with_patch"] = rc != 0
+            res["demo_fails_with_patch"] = rc != 0 and 'no tests to run' not in out
             sh("git checkout -- .", cwd=wt)
             rc, out2 = sh(f"go test -vet=off -count=1 -run 'TestSeed' ./{pkgdir}/", cwd=wt)
             res["demo_passes_without_patch"] = rc == 0
